@@ -3,18 +3,32 @@ from vcommon import *
 import scen_common
 
 PID = "C19"
-PROP_V = "Props/Properties_C19.v"
-GEN_MODULES = ["Sites"]
-REPLAY_HINT = "VRT_WHICH=<0|1|2> VRT_SEED=<seed> _work/h/alloc_fail   (the allocation of that constructor call returns NULL)"
-TRUSTED_BASE = ["gen/sites.py's extraction of the calls / pointer stores / atomic sites of the two constructors and of the conditions dominating them"]
+PROP_V = ["Props/Properties_C19.v", "Props/Properties_C19m.v"]
+GEN_MODULES = ["Consts", "Sites"]
+FLOW_FILES = ['note.c', 'counter.c']
+REPLAY_HINT = ("VRT_WHICH=<0|1|2> VRT_SEED=<seed> _work/h/alloc_fail   (the allocation of that constructor call returns NULL) | "
+               "VRT_SEED=<seed> _work/h/note_alloc (failing allocations of a creator thread under concurrency, replayed in lock-step)")
+TRUSTED_BASE = ["gen/sites.py's extraction of the calls / pointer stores / atomic sites of the two constructors and of the conditions dominating them",
+                "Model/NoteModel.v control skeleton (the failing allocation is the choice c = true at pc W1), validated by lock-step replay of note_alloc"]
+PARTIAL = ["nsync_counter_new has no step model of its own (CounterModel starts from a constructed counter): its half is the evaluation of the regenerated "
+           "dominance conditions (C19_counter_new_does_nothing_on_null) and the alloc_fail scenario; the note half is additionally a frame theorem over "
+           "NoteModel (C19m_note_new_null_frame) tied to the code by lock-step replay of runs with failing allocations under concurrency",
+           "'leaves every existing object usable' is, for notes, the content of the C08 / C09 theorems, which hold for every reachable world of NoteModel "
+           "including those reached through failed allocations; byte-for-byte equality of the existing objects is checked by the sequential alloc_fail scenario only"]
 
 
 def run(tier, seed):
+    import mu_common
     res = {"violations": [], "broken": [], "coverage": {}}
-    specs = [("alloc_fail", {"VRT_WHICH": w}, 60, 600) for w in (0, 1, 2)]
+    tie = mu_common.tie(res, "note_replay", "NoteModel", [("note_alloc", {}, 300, 3000)], tier, seed)
+    specs = [("alloc_fail", {"VRT_WHICH": w}, 60, 600) for w in (0, 1, 2)] + [("note_alloc", {}, 1500, 20000)]
     cov = scen_common.run_scenarios(res, specs, tier, seed, {"C19", "UAF"} | scen_common.CRASHES | scen_common.LIVENESS, label_nontrivial="malloc_failed")
     cov["rule"] = ("alloc_fail: builds root/child notes and counters, makes the allocation of one constructor call (child of root, child of a "
                    "child with a deadline, a counter) fail, checks NULL result, byte-for-byte unchanged existing objects, and that the tree and "
                    "counters are still usable (new child, notify reaches children, free); non-trivial = runs in which an allocation failed")
+    cov["rule"] += ("; note_alloc: a creator thread's nsync_note_new calls under P and under its child C with the allocation of about half of "
+                    "them failing, concurrently with notify (P), polls of and a timed wait on C: NULL exactly when the allocation failed, the same "
+                    "call without the fault succeeds at once, and a notification of P reaches every live note at the end")
+    cov.update(tie)
     res["coverage"] = cov
     return res
